@@ -191,6 +191,34 @@ theorem C06_issued_backs_nothing (n : Node) (h : Hash) (inv : Invoice) :
     apply restoreAll_none _ _ _ _ _ h3
     simp [h1, h2]
 
+/-- **C06 (an approval recorded as zero).**  An amountless BOLT-11 invoice and a keysend of 0 msat are recorded
+    with amount 0.  For such a hash `validate_payment_balance` accepts only what incoming value covers: the
+    routing-fee allowance bounds the excess from above, and the fee-percentage bound (relative to `max(0, 1)`)
+    refuses every excess of 1 msat or more as long as the configured percentage is below 100. -/
+theorem C06_zero_approval {pol : Policy} {i o : Nat} (hp : pol.feePct < 100)
+    (hb : balance pol i o (some 0) = .ok) : o ≤ i := by
+  unfold balance at hb
+  simp only [Nat.zero_add] at hb
+  by_cases h1 : pol.maxFee > U64.MAX
+  · simp [h1] at hb
+  · by_cases h2 : i + pol.maxFee > U64.MAX
+    · simp [h1, h2] at hb
+    · by_cases h3 : i + pol.maxFee < o
+      · simp [h1, h2, h3] at hb
+      · by_cases h4 : i > U64.MAX
+        · simp [h1, h2, h3, h4] at hb
+        · by_cases h5 : i > o
+          · omega
+          · simp only [h1, h2, h3, h4, h5, if_false, Nat.sub_zero, U64.checkedMul] at hb
+            by_cases h6 : (o - i) * 100 ≤ U64.MAX
+            · simp only [h6, if_true] at hb
+              have e : max 0 1 = 1 := rfl
+              rw [e, Nat.div_one] at hb
+              by_cases h7 : (o - i) * 100 > pol.feePct
+              · simp [h7] at hb
+              · omega
+            · simp [h6] at hb
+
 /-- **C06 (restart).**  A restart (persisted invoices and preimages, payments rebuilt by
     `restore_payments` from the current commitments of every channel) keeps the invariant, leaves the
     ghost ledger and the approvals unchanged, and leaves the node's per-channel amounts exactly equal to
